@@ -77,6 +77,23 @@ type pullProxy struct {
 	pendingSession base.IObject
 }
 
+// onReadRtmpAvMsgFromPull 回源session收到的音视频数据
+//
+// 只有已经挂到group上的回源session才是这路流的输入。对端在回复Play.Start之前（或者根本不回复）就发送的数据、以及挂载被拒绝的
+// session的数据，都不能广播给这路流的观看者。
+func (group *Group) onReadRtmpAvMsgFromPull(session *rtmp.PullSession, msg base.RtmpMsg) {
+	group.mutex.Lock()
+	defer group.mutex.Unlock()
+	if group.pullProxy.rtmpSession != session {
+		return
+	}
+	if group.dummyAudioFilter != nil {
+		group.dummyAudioFilter.Feed(msg)
+	} else {
+		group.broadcastByRtmpMsg(msg)
+	}
+}
+
 // initRelayPullByConfig 根据配置文件中的静态回源配置来初始化回源设置
 func (group *Group) initRelayPullByConfig() {
 	enable := group.config.StaticRelayPullConfig.Enable
@@ -237,7 +254,9 @@ func (group *Group) pullIfNeeded() (string, error) {
 				rtmpSession.Dispose()
 				return
 			}
-		}).WithOnReadRtmpAvMsg(group.OnReadRtmpAvMsg)
+		}).WithOnReadRtmpAvMsg(func(msg base.RtmpMsg) {
+			group.onReadRtmpAvMsgFromPull(rtmpSession, msg)
+		})
 
 		uk = rtmpSession.UniqueKey()
 	} else {
